@@ -166,6 +166,8 @@ type CertCase struct {
 	Policies   [][]int
 	Vendor     []VendorExt
 	Trailing   []byte
+	// ExtOrder: 0 = the order crypto/x509 emits; otherwise the seed of a permutation of the extensions
+	ExtOrder int
 }
 
 type VendorExt struct {
@@ -300,6 +302,9 @@ func genCert(t *rapid.T) CertCase {
 		c.Vendor = append(c.Vendor, v)
 	}
 	c.Trailing = rapid.SliceOfN(rapid.Byte(), 1, 4).Draw(t, "trailing")
+	if rapid.Bool().Draw(t, "permuteExts") {
+		c.ExtOrder = rapid.IntRange(1, 1<<20).Draw(t, "extOrder")
+	}
 	return c
 }
 
@@ -368,7 +373,32 @@ func (c CertCase) der() ([]byte, error) {
 	if c.SignerKey != "" {
 		parent, signer = signerCert(c.SignerKey), c.SignerKey
 	}
-	return x509.CreateCertificate(rand.Reader, tpl, parent, vh.PublicOf(c.SubjectKey), vh.Key(signer))
+	der, err := x509.CreateCertificate(rand.Reader, tpl, parent, vh.PublicOf(c.SubjectKey), vh.Key(signer))
+	if err != nil || c.ExtOrder == 0 {
+		return der, err
+	}
+	// the same certificate with its extensions in another order (a conforming encoder may emit them in
+	// any order): every extension of the first encoding is handed back as an explicit extension
+	first, perr := x509.ParseCertificate(der)
+	if perr != nil || len(first.Extensions) < 2 {
+		return der, err
+	}
+	exts := append([]pkix.Extension(nil), first.Extensions...)
+	x := uint32(c.ExtOrder)
+	for i := len(exts) - 1; i > 0; i-- {
+		x = x*1664525 + 1013904223
+		j := int(x>>8) % (i + 1)
+		exts[i], exts[j] = exts[j], exts[i]
+	}
+	if c.ExtOrder%3 == 0 { // plainly reversed: authority key identifier before subject key identifier etc.
+		exts = append([]pkix.Extension(nil), first.Extensions...)
+		for i, j := 0, len(exts)-1; i < j; i, j = i+1, j-1 {
+			exts[i], exts[j] = exts[j], exts[i]
+		}
+	}
+	tpl2 := *tpl
+	tpl2.ExtraExtensions = exts
+	return x509.CreateCertificate(rand.Reader, &tpl2, parent, vh.PublicOf(c.SubjectKey), vh.Key(signer))
 }
 
 func pubEqual(a, b any) bool {
@@ -567,7 +597,7 @@ func execCert(c CertCase) (vh.Outcome, error) {
 
 func TestC16ParseAgree(t *testing.T) {
 	vh.Run(t, vh.Spec[CertCase]{Property: "C16", Name: "TestC16ParseAgree",
-		Rule: "certificates from x509.CreateCertificate: RSA 1024..2048 (3072/4096 in thorough; sizes not divisible by 8) and P-256/384/521 subject keys; self-signed or issued by RSA / ECDSA CAs with PKCS#1, PSS and ECDSA signature algorithms; serials to 20 bytes; names with UTF-8 attributes; validity 1950..9999 incl. the UTCTime/GeneralizedTime edge; basic constraints, key usage, key ids, SAN dns/email/ip, EKU known+unknown, policies, vendor OIDs 1.3.6.1.4.1.41482.3.x critical or not (serial extension well-formed or arbitrary). Oracle: crypto/x509 accepts => lenient parser accepts and agrees on Raw, RawTBS, SPKI, names (raw and parsed), key, signature, algorithms, serial, validity, version, extension list; DER+trailing bytes refused, also when the trailing bytes are a complete certificate; NULL-less RSA variant (lengths rewritten) accepted with the same fields; ModHex of the parsed certificate judged by the reference rendering. Non-trivial: >=2 extensions or a NULL-less variant.",
+		Rule: "certificates from x509.CreateCertificate: RSA 1024..2048 (3072/4096 in thorough; sizes not divisible by 8) and P-256/384/521 subject keys; self-signed or issued by RSA / ECDSA CAs with PKCS#1, PSS and ECDSA signature algorithms; serials to 20 bytes; names with UTF-8 attributes; validity 1950..9999 incl. the UTCTime/GeneralizedTime edge; basic constraints, key usage, key ids, SAN dns/email/ip, EKU known+unknown, policies, vendor OIDs 1.3.6.1.4.1.41482.3.x critical or not (serial extension well-formed or arbitrary); half of the certificates carry their extensions in a permuted (or reversed) order. Oracle: crypto/x509 accepts => lenient parser accepts and agrees on Raw, RawTBS, SPKI, names (raw and parsed), key, signature, algorithms, serial, validity, version, extension list; DER+trailing bytes refused, also when the trailing bytes are a complete certificate; NULL-less RSA variant (lengths rewritten) accepted with the same fields; ModHex of the parsed certificate judged by the reference rendering. Non-trivial: >=2 extensions or a NULL-less variant.",
 		Gen:  genCert, Exec: execCert})
 }
 
